@@ -113,7 +113,7 @@ fn main() {
     let tier = args[2].clone();
     let seed: u64 = args[3].parse().unwrap_or(0);
     let outdir = args[4].clone();
-    std::panic::set_hook(Box::new(|_| {}));
+    if std::env::var("HARNESS_VERBOSE_PANIC").is_err() { std::panic::set_hook(Box::new(|_| {})); }
     std::fs::create_dir_all(&outdir).unwrap();
     let _ = std::fs::remove_file(format!("{}/hang.json", outdir));
     start_watchdog(outdir.clone(), if tier == "thorough" { 1800 } else { 180 });
